@@ -20,6 +20,7 @@ func checkC10(c *Ctx, r *Report) {
 	r.rule("C10.R1", "the counter component of the session reference is allocated atomically (read in the critical section of its increment)", 1)
 	r.rule("C10.R2", "the session reference is an injective function of the counter (constant non-digit separator next to the digits)", 1)
 	r.rule("C10.R4", "the allocated number is carried in 64 bits from the counter to the digits (no wrap-around within the life of the process)", 1)
+	r.rule("C10.R5", "the subscriber context a reference is registered in stays in the pool while requests are served (a reference registered in a context that was dropped designates nothing)", 1)
 	r.rule("C10.R3", "ue.Cdr is written only in create (key = the reference) and in update/release under the request's own reference", 1)
 
 	create := c.fn("internal/sbi/processor", "Processor.ChargingDataCreate")
@@ -140,6 +141,7 @@ func checkC10(c *Ctx, r *Report) {
 		})
 	}
 	r.count("cdr_map_writes", n)
+	checkPoolLifetime(c, r, "C10.R5", "a create that fetched the context before the removal registers its record in the orphaned object and answers 201 with a reference that the next update or release (which look the subscriber up again and get a fresh context) cannot find - the reference designates no session")
 }
 
 // concatAlternatives flattens string concatenations into component lists;
